@@ -3,7 +3,8 @@
    the hint contract: no operation panics, finish does not panic. *)
 From QV Require Import Base.ListX Model.MsgWriter Spec.NameRepr Proofs.NameWireP Proofs.MsgWriterP
      Proofs.MsgWriterScanP Proofs.MsgWriterNameP Proofs.MsgWriterInvP Proofs.MsgWriterClosP
-     Proofs.MsgWriterScanSP Proofs.MsgWriterNameSP Proofs.MsgWriterOpP.
+     Proofs.MsgWriterScanSP Proofs.MsgWriterNameSP Proofs.MsgWriterLayP Proofs.MsgWriterOpP.
+From QV Require Import Spec.MsgWriterAbsS.
 
 Local Open Scope nat_scope.
 
@@ -329,6 +330,94 @@ Proof.
   - simpl. rewrite !app_nil_r. eapply AInv_ghost_eq; eauto.
 Qed.
 
+(* ---------------------------------------------------------------- the layout invariant *)
+
+Record lay := mkLay { y_qs : list lq; y_rrs : list lrr }.
+
+Definition q_desc (q : lq) (a : aq) : Prop :=
+  nc_name (lq_name q) = aq_name a /\ nc_cp (lq_name q) = aq_exact a /\ lq_ty q = aq_ty a /\ lq_cl q = aq_cl a.
+Definition rr_desc2 (r : lrr) (a : arr) : Prop :=
+  rr_desc r (ar_owner a) (ar_exact a) (ar_ty a) (ar_cl a) (ar_ttl a)
+          (component_types (ar_cl a) (ar_ty a)) (ar_rd a).
+
+(* physical part: questions tile [12, rr_start), records tile [rr_start, cursor); L is exactly the
+   set of label starts of the name chunks of the layout *)
+Record PLay (b : bytes) (L : nat -> Prop) (y : lay) (rs c : nat) : Prop := mkPLay {
+  p_qs : qs_at b L (y_qs y) header_size rs;
+  p_rrs : rrs_at b L (y_rrs y) rs c;
+  p_tight : forall s, L s <-> In s (qs_starts (y_qs y) ++ rrs_starts (y_rrs y)) }.
+
+Definition b2N (x : bool) : N := if x then 1%N else 0%N.
+Definition osome {A} (o : option A) : bool := match o with Some _ => true | None => false end.
+
+Record FLay (w : writer) (y : lay) (A : amsg) : Prop := mkFLay {
+  f_qd : Forall2 q_desc (y_qs y) (am_qs A);
+  f_rd : Forall2 rr_desc2 (y_rrs y) (am_an A ++ am_ns A ++ am_ar A);
+  f_mode : am_mode A = w_mode w;
+  f_cq : w_qd w = N.of_nat (length (am_qs A));
+  f_ca : w_an w = N.of_nat (length (am_an A));
+  f_cn : w_ns w = N.of_nat (length (am_ns A));
+  f_cr : w_ar w = (N.of_nat (length (am_ar A)) + b2N (osome (w_edns w)) + b2N (osome (w_tsig w)))%N;
+  f_sec : match w_section w with
+          | SecQuestion => am_an A = [] /\ am_ns A = [] /\ am_ar A = []
+          | SecAnswer => am_ns A = [] /\ am_ar A = []
+          | SecAuthority => am_ar A = []
+          | SecAdditional => True
+          end }.
+
+Definition LInv (d : dstate) (y : lay) (A : amsg) (L : nat -> Prop) : Prop :=
+  PLay (w_buf (d_w d)) L y (w_rr_start (d_w d)) (w_cursor (d_w d)) /\ FLay (d_w d) y A.
+
+Lemma PLay_transfer b lo h L b' y rs c : closed b lo c h L -> ragree lo c h b b' ->
+  lo = header_size -> rs <= c -> c <= length b -> c <= h ->
+  PLay b L y rs c -> PLay b' L y rs c.
+Proof.
+  intros Hc R -> Hrs Hlen Hh [P1 P2 P3]. pose proof (qs_le _ _ _ _ _ P1). pose proof (rrs_le _ _ _ _ _ P2).
+  constructor; auto.
+  - eapply qs_transfer; eauto; try (unfold okr; lia).
+  - eapply rrs_transfer; eauto; try (unfold okr; lia).
+Qed.
+
+Lemma FLay_fields w w' y A : FLay w y A -> w_mode w' = w_mode w -> w_qd w' = w_qd w -> w_an w' = w_an w ->
+  w_ns w' = w_ns w -> w_ar w' = w_ar w -> w_section w' = w_section w ->
+  osome (w_edns w') = osome (w_edns w) -> osome (w_tsig w') = osome (w_tsig w) -> FLay w' y A.
+Proof. intros [] E1 E2 E3 E4 E5 E6 E7 E8. constructor; rewrite ?E1, ?E2, ?E3, ?E4, ?E5, ?E6, ?E7, ?E8; auto. Qed.
+
+Lemma LInv_move d g y A L w' : AInv d g L -> LInv d y A L -> Inv_n w' ->
+  ragree header_size (w_cursor (d_w d)) (length (w_buf (d_w d))) (w_buf (d_w d)) (w_buf w') ->
+  w_cursor w' = w_cursor (d_w d) -> w_rr_start w' = w_rr_start (d_w d) -> FLay w' y A ->
+  LInv (mkD w' (d_regs d)) y A L.
+Proof.
+  intros Hi [HP HF] Hn' R Ec Ers HF'. split; auto. simpl. rewrite Ec, Ers.
+  pose proof (a_n _ _ _ Hi) as []. pose proof (a_ni _ _ _ Hi) as Hni.
+  eapply PLay_transfer; eauto; try lia. apply Hni.
+Qed.
+
+Lemma LInv_obs d g y A L w' : AInv d g L -> LInv d y A L -> obs_eq (d_w d) w' ->
+  LInv (mkD w' (d_regs d)) y A L.
+Proof.
+  intros Hi HL X. eapply LInv_move; eauto; try apply X.
+  - eapply obs_eq_inv; eauto. apply Hi.
+  - apply obs_ragree; auto.
+  - destruct HL as [_ HF]. eapply FLay_fields; eauto; try apply X.
+    + rewrite (o_edns _ _ X). reflexivity.
+    + rewrite (o_tsig _ _ X). reflexivity.
+Qed.
+
+Lemma LInv_regs d y A L regs' : LInv d y A L -> LInv (mkD (d_w d) regs') y A L.
+Proof. intros H. exact H. Qed.
+
+Lemma ttl_from_rfc raw : ttl_from raw = ttl_rfc raw.
+Proof.
+  unfold ttl_from, ttl_rfc. change TTL_MAX with 2147483647%N.
+  destruct (2147483647 <? raw)%N eqn:E1; destruct (raw <=? 2147483647)%N eqn:E2; auto.
+  - apply N.ltb_lt in E1. apply N.leb_le in E2. lia.
+  - apply N.ltb_ge in E1. apply N.leb_gt in E2. lia.
+Qed.
+
+Lemma exactf_of m : exactf m = exact_of m.
+Proof. destruct m; reflexivity. Qed.
+
 (* ---------------------------------------------------------------- add_*_rr / add_*_rrset *)
 
 Definition step_ok (d : dstate) (g : gn) (o : wop) : Prop :=
@@ -366,7 +455,7 @@ Proof.
   2:{ simpl in G |- *. exists L. apply AInv_err; auto. }
   destruct (checked_add16 (sec_count s w2) 1) as [c|]; simpl in G |- *.
   2:{ exists L. apply AInv_err; auto. }
-  destruct P as [L' [G' [Hi' [A' [V' [Vs [Hc' Hq']]]]]]]. simpl in Hq'.
+  destruct P as [L' [G' [Hi' [A' [V' [Vs [Hc' [Hq' _]]]]]]]]. simpl in Hq'.
   exists L'.
   apply (AInv_set_sec_count (mkD w2 _) _ L' s c).
   apply (AInv_rr d g L w2 L'); auto.
@@ -400,7 +489,7 @@ Proof.
   { exists L. apply AInv_err; auto. }
   destruct (checked_add16 (sec_count s w2) (N.of_nat k)) as [c|]; simpl in G |- *.
   2:{ exists L. apply AInv_err; auto. }
-  destruct P as [L' [G' [Hi' [A' [V' [Vs [Hk [Hc' [Hm' Hq']]]]]]]]]. simpl in Hq'.
+  destruct P as [L' [G' [Hi' [A' [V' [Vs [Hk [Hc' [Hm' [Hq' _]]]]]]]]]]. simpl in Hq'.
   exists L'.
   apply (AInv_set_sec_count (mkD w2 _) _ L' s c).
   apply (AInv_rr d g L w2 L'); auto.
@@ -1029,7 +1118,7 @@ Theorem hinted_into_label_starts hl h n w L : NInv w hl L -> wf_name n -> hint_c
   match write_hinted_name h n w with
   | Ok (pr, w') => emittedL n (w_buf w') (w_cursor w) (w_cursor w') L /\
                    exists L', grew w w' L L' /\ NInv w' hl L' /\ (forall p, pr = Some p -> L' (p_ptr p)) /\
-                              emittedT n (w_buf w') (w_cursor w) (w_cursor w') L L'
+                              emittedT (exactf (w_mode w)) n (w_buf w') (w_cursor w) (w_cursor w') L L'
   | Err (e, _) => e = Truncation
   | Panic => False
   end.
@@ -1043,7 +1132,7 @@ Theorem unhinted_into_label_starts hl n w L : NInv w hl L -> wf_name n ->
   match write_unhinted_name n w with
   | Ok (pr, w') => emittedL n (w_buf w') (w_cursor w) (w_cursor w') L /\
                    exists L', grew w w' L L' /\ NInv w' hl L' /\ (forall p, pr = Some p -> L' (p_ptr p)) /\
-                              emittedT n (w_buf w') (w_cursor w) (w_cursor w') L L'
+                              emittedT (exactf (w_mode w)) n (w_buf w') (w_cursor w) (w_cursor w') L L'
   | Err (e, _) => e = Truncation
   | Panic => False
   end.
